@@ -320,6 +320,7 @@ int main(int argc, char **argv) {
   if (!C.replay.empty()) { for (auto &l : readLines(C.replay)) exec(l); endCase(); C.finish(); return 0; }
   Rng rr(C.seed * 7919 + 13); R = &rr;
   int ncases = C.thorough ? 1500 : 150;
+  if (getenv("N2K_FUZZ_CASES")) ncases = atoi(getenv("N2K_FUZZ_CASES"));   // reduced budget for the run under valgrind memcheck
   for (int i = 0; i < ncases; i++) oneCase();
   endCase();
   C.sample("grammar: TP sessions (RTS/BAM/DT/CTS/EndAck/Abort, wrong counts and sequence numbers, address loss in the middle), group functions (all codes, pair counts 0..255, truncated), ISO request/ack/commanded address/claims (NAME 0, all-ones), 126996/126998/126464 of all sizes, damaged fast packets, random identifiers and DLC 0..8, clock jumps");
